@@ -1,7 +1,10 @@
 package main
 
 import (
+	"bytes"
+	stdxml "encoding/xml"
 	"fmt"
+	"io"
 )
 
 // ---- C11, second correspondence: the Coq *specification* (document grammar, render_doc, expect_doc,
@@ -292,3 +295,80 @@ func xmlspecClass(c Case, out []int64) string {
 }
 
 var xmlspecModel = &Model{Name: "xmlspec", Gen: xmlspecGen, Impl: xmlspecImpl, Shrink: xmlspecShrink, Class: xmlspecClass}
+
+// ---- C11, third correspondence: the Coq *reference semantics* (Xml/Agree.v ref_events: element names,
+// attribute names, normalised attribute values, PI targets of a grammar document) against encoding/xml's
+// RawToken on the rendered document.  The Coq theorem xml_agrees_with_reference says the lexer reports
+// exactly ref_events; this run validates ref_events against an independent XML reader. ----------------------
+
+// c11StdNorm maps the attribute value encoding/xml reports (line ends already LF) to XML 1.0's normalised
+// form: encoding/xml does not replace TAB/LF by space itself.
+func c11StdNorm(s string) string { return normWS(s) }
+
+func c11XmlrefImpl(c Case) []int64 {
+	items, ok := decItems(c.Args)
+	if !ok {
+		return []int64{-9}
+	}
+	d := buildDoc(items)
+	src := d.src
+	if d.feats["doctype-pi-special"] { // see xmlWellFormed
+		src = d.srcNoDT
+	}
+	dec := stdxml.NewDecoder(bytes.NewReader(src))
+	var evs [][]int64
+	for {
+		t, err := dec.RawToken()
+		if err == io.EOF {
+			break
+		}
+		if err != nil {
+			return []int64{-7}
+		}
+		switch e := t.(type) {
+		case stdxml.StartElement:
+			ev := encBytesStr([]int64{0}, rawName(e.Name))
+			ev = append(ev, int64(len(e.Attr)))
+			for _, a := range e.Attr {
+				ev = encBytesStr(ev, rawName(a.Name))
+				ev = encBytesStr(ev, c11StdNorm(a.Value))
+			}
+			evs = append(evs, ev)
+		case stdxml.EndElement:
+			evs = append(evs, encBytesStr([]int64{1}, rawName(e.Name)))
+		case stdxml.ProcInst:
+			evs = append(evs, encBytesStr([]int64{2}, e.Target))
+		}
+	}
+	out := []int64{-4, int64(len(evs))}
+	for _, ev := range evs {
+		out = append(out, ev...)
+	}
+	return out
+}
+
+func c11XmlrefGen(r *Rng, tier string, emit func(Case)) {
+	n := 4000
+	if tier == "thorough" {
+		n = 100000
+	}
+	for i := 0; i < n; i++ {
+		items := genXMLItems(r)
+		if len(buildDoc(items).src) > 3000 {
+			continue
+		}
+		c := xmlspecCase(items, "ref")
+		c.Fn = "xmlref"
+		emit(c)
+	}
+}
+
+func c11XmlrefShrink(c Case) []Case {
+	out := xmlspecShrink(c)
+	for i := range out {
+		out[i].Fn = "xmlref"
+	}
+	return out
+}
+
+var c11XmlrefModel = &Model{Name: "xmlref", Gen: c11XmlrefGen, Impl: c11XmlrefImpl, Shrink: c11XmlrefShrink, Class: xmlspecClass}
